@@ -6,7 +6,14 @@
     - [e : tenv] the terminal's fixed traits (tty or not, which size queries it answers,
       name, colours); [t0 : tsize] its initial size; [ops] a history over
       [Resize | EnableSwap | DisableSwap | EnableQueries | DisableQueries | SetRatio m |
-       GetCellSize | GetCellRatio | GetColors k | GetNameVersion | IsOnKitty | GetTsc];
+       GetCellSize | GetCellRatio | GetColors k | GetNameVersion | IsOnKitty | GetTsc |
+       GetCellSizeAbort | GetCellRatioAbort | GetColorsAbort k | GetNameVersionAbort];
+      the last four are the getters called with a fault armed inside [query_terminal]
+      (KeyboardInterrupt / termios.error while the terminal's reply is awaited): if the
+      call really queries the terminal the caller sees [raised] — an ABORTED
+      computation —, otherwise the call returns normally.  EVERY theorem below that
+      quantifies over [ops] therefore quantifies over histories with aborted
+      computations at any position;
     - [run e t0 ops] the model state after the history, [step e s o] one more operation
       (new state, what the caller sees);
     - [fresh_* e t sw q] the same getter run from EMPTY caches for terminal [t], swap
@@ -137,6 +144,53 @@ Theorem C15_derived_facts_refuted_before_fix :
 Proof. exact derived_facts_refuted_before_fix. Qed.
 Print Assumptions C15_derived_facts_refuted_before_fix.
 
+(** ** aborted computations
+
+    an operation whose caller sees the exception leaves the WHOLE state (every cache
+    entry, every setting, every counter) exactly as it was *)
+Theorem C15_aborted_computation_changes_nothing :
+  forall e s o, snd (step e s o) = raised -> fst (step e s o) = s.
+Proof. exact aborted_changes_nothing_lemma. Qed.
+Print Assumptions C15_aborted_computation_changes_nothing.
+
+(** an armed call either raises and changes nothing, or it IS the plain call (same new
+    state, same answer — to which the freshness theorems above apply) *)
+Theorem C15_abort_raises_or_plain :
+  forall e s o,
+    (snd (step e s o) = raised /\ fst (step e s o) = s) \/ step e s o = step e s (plain o).
+Proof. exact abort_raises_or_plain. Qed.
+Print Assumptions C15_abort_raises_or_plain.
+
+(** an aborted computation is invisible to the rest of the history: the state after a
+    history with it is the state after the history without it *)
+Theorem C15_aborted_computation_is_invisible :
+  forall e t0 ops1 a ops2,
+    snd (step e (run e t0 ops1) a) = raised ->
+    run e t0 (ops1 ++ a :: ops2) = run e t0 (ops1 ++ ops2).
+Proof. exact aborted_is_invisible. Qed.
+Print Assumptions C15_aborted_computation_is_invisible.
+
+(** the same on the history-level specification: it creates no entry and kills none *)
+Theorem C15_aborted_computation_spec_changes_nothing :
+  forall e h o, snd (hstep e h o) = raised -> fst (hstep e h o) = h.
+Proof. exact aborted_spec_changes_nothing. Qed.
+Print Assumptions C15_aborted_computation_spec_changes_nothing.
+
+(** after an aborted cell-size computation the next call answers with the fresh value
+    for the current terminal (queries enabled: an aborted query implies they are) —
+    whatever an earlier computation at another terminal size left in the cache *)
+Theorem C15_retry_after_abort_fresh :
+  forall e t0 ops,
+    kitty_memo e = false ->
+    wf_sizes t0 (ops ++ [GetCellSizeAbort; GetCellSize]) = true ->
+    px_ok e t0 (ops ++ [GetCellSizeAbort; GetCellSize]) ->
+    let s := run e t0 ops in
+    snd (step e s GetCellSizeAbort) = raised ->
+    snd (step e (fst (step e s GetCellSizeAbort)) GetCellSize)
+    = view_cs (fresh_cs e (tm s) (swap s) true).
+Proof. exact retry_after_abort_fresh. Qed.
+Print Assumptions C15_retry_after_abort_fresh.
+
 (** the whole observable behaviour (answers and body-execution counters of every
     operation) of the cache state machine is that of the cache-free specification *)
 Theorem C15_trace_is_specification :
@@ -146,10 +200,11 @@ Theorem C15_trace_is_specification :
 Proof. exact trace_eq_spec. Qed.
 Print Assumptions C15_trace_is_specification.
 
-(** the [cached] decorator under concurrency: for every body behaviour [bv], every
+(** the [cached] decorator under concurrency: for every body behaviour [bv] (each
+    execution returns a value or RAISES), every
     assignment of programs (calls with any argument tuples, invalidations) to any number
-    of threads, every reachable state — hence every schedule — the body has run at most
-    once per argument tuple since the last [cache.clear()] *)
+    of threads, every reachable state — hence every schedule — the body has run TO
+    COMPLETION at most once per argument tuple since the last [cache.clear()] *)
 Theorem C15_memo_body_once :
   forall bv prog s k,
     reachable (mstep bv) (minit prog) s -> (m_calls s k <= 1)%nat.
@@ -173,3 +228,12 @@ Theorem C15_memo_same_value :
     In (ep, k, v1) (m_rets (m_th s t1)) -> In (ep, k, v2) (m_rets (m_th s t2)) -> v1 = v2.
 Proof. exact memo_same_value_lemma. Qed.
 Print Assumptions C15_memo_same_value.
+
+(** a body execution that raises stores nothing: cache and counters of completed
+    executions unchanged, the thread only releases the lock *)
+Theorem C15_memo_raise_stores_nothing :
+  forall bv s t k s',
+    m_pc (m_th s t) = PBody k -> bv (m_total s) k = None -> mstep bv s t = Some s' ->
+    m_cache s' = m_cache s /\ m_calls s' = m_calls s /\ m_pc (m_th s' t) = PRelease None.
+Proof. exact memo_raise_stores_nothing_lemma. Qed.
+Print Assumptions C15_memo_raise_stores_nothing.
